@@ -293,7 +293,9 @@ def refStep (nnc : Bool) (rw : RWorld) (pre : Nat → FPoly) (op : Op) : RWorld 
   | _ => (rw, none)
 
 def sizeOK (ex : RefPoly) (r : FPoly) (maxRows : Nat) : Bool :=
-  ex.n ≤ 5 && ex.cs.length ≤ 16 && r.p.gs.rows.length ≤ maxRows && r.p.cs.rows.length ≤ 14
+  ex.n ≤ 4 && ex.cs.length ≤ 12 && r.p.gs.rows.length ≤ maxRows && r.p.cs.rows.length ≤ 12
+
+def refSmall (r : Option RefPoly) : Bool := match r with | some x => x.n ≤ 4 && x.cs.length ≤ 12 | none => true
 
 structure HState where
   hid : String := ""
@@ -347,7 +349,9 @@ def processLine (line : String) (maxRows : Nat) (resync : Bool) (h : HState) : I
         let ma := if st.op.isObserver then obsStr obs else "-"
         let ansErr := if ra != ma && ra != "-" then some s!"answer model={ma} real={ra}" else none
         -- 3. the reference
-        let (rw, refAns) := refStep h.nnc h.ref h.real st.op
+        let small := slots.all fun i => refSmall (h.ref i) && (h.real i).p.gs.rows.length ≤ maxRows
+        let (rw, refAns) := if small then refStep h.nnc h.ref h.real st.op
+                            else (slots.foldl (fun (w : RWorld) i => w.set i none) h.ref, none)
         let semMsgs := slots.filterMap fun i =>
           match rw i with
           | none => none
@@ -364,9 +368,13 @@ def processLine (line : String) (maxRows : Nat) (resync : Bool) (h : HState) : I
         let semAll := semMsgs ++ (match ansSem with | some m => [m] | none => [])
         let semStr := if semAll.isEmpty then "sem=ok" else "sem=BAD " ++ "; ".intercalate semAll
         -- a reference that could not be computed is re-seeded from the real state
+        -- … and a reference just found K1-equivalent to the real constraint system is replaced by it (it is smaller)
         let rw' := slots.foldl (fun (w : RWorld) i => match w i with
           | none => w.set i (refOf (realW i).p)
-          | some _ => w) rw
+          | some ex =>
+            let r := (realW i).p
+            if semAll.isEmpty && !r.st.empty && r.st.cUp && !r.st.gPend && r.dim == ex.n && r.cs.rows.length < ex.cs.length
+            then w.set i (refOf r) else w) rw
         let allErr := errs ++ (match ansErr with | some e => [e] | none => [])
         if allErr.isEmpty then
           if semAll.isEmpty then
@@ -386,7 +394,10 @@ def processLine (line : String) (maxRows : Nat) (resync : Bool) (h : HState) : I
 partial def loop (s : IO.FS.Stream) (maxRows : Nat) (resync : Bool) (h : HState) : IO Unit := do
   let line ← s.getLine
   if line.isEmpty then return ()
+  let t0 ← IO.monoMsNow
   let h' ← processLine line maxRows resync h
+  let t1 ← IO.monoMsNow
+  if t1 - t0 > 3000 then IO.eprintln s!"slow {t1 - t0}ms {h.hid} {line.take 70}"
   loop s maxRows resync h'
 
 end PolyFullDriver
